@@ -231,6 +231,12 @@ def run(rep, tier):
         r4(prog, rep, t)
     rep.floor("seeds", len(topos), 12)
     make_connection(prog, rep)
+    # radially adjacent blocks share an edge only if adjoining radial segments end/start on
+    # the same psi value (rule instances of C09.R5, psi part)
+    from ..report import Premise
+    from . import c09
+    rep.rule("R0", "premise: adjoining radial segments of a region share their boundary psi value (C09.R5)")
+    c09.segment_pairs(prog, Premise(rep, "R0", "C09"), grad=False)
     r3(prog, rep)
     r5_r6(prog, rep, topos)
     y_group_origin(prog, rep, "R7")
